@@ -49,9 +49,27 @@ def snapshot(o):
     return ("v", repr(o))
 
 
+def individual_los(rng):
+    """a per-lens (individual) external-convergence distribution"""
+    if rng.random() < 0.5:
+        return dict(los_distribution_individual="GEV",
+                    kwargs_los_individual=dict(xi=rng.uniform(-0.1, 0.2), mean=rng.uniform(-0.02, 0.05), sigma=rng.uniform(0.01, 0.04)))
+    edges = np.linspace(-0.1, 0.3, 9)
+    pdf = np.array([rng.uniform(0.1, 1.0) for _ in range(8)])
+    return dict(los_distribution_individual="PDF", kwargs_los_individual=dict(bin_edges=edges, pdf_array=pdf))
+
+
 def gen_history_cfg(rng):
     cfg = c02.gen_config(rng)
     cfg["mode"] = rng.choice(["sampled", "sampled", "fixed_interp"])
+    lenses = []
+    for kw, lt, data in cfg["lenses"]:
+        if rng.random() < 0.3:
+            kw = dict(kw)
+            kw.pop("global_los_distribution", None)
+            kw.update(individual_los(rng))
+        lenses.append((kw, lt, data))
+    cfg["lenses"] = lenses
     return cfg
 
 
@@ -84,7 +102,9 @@ def history_oracle(cfg, rng, seed_base):
         fails.append("constructor modified the caller's configuration (lens list / model / bounds)")
     names = cl.param.param_list()
     lo, up = [float(v) for v in cl.param.param_bounds[0]], [float(v) for v in cl.param.param_bounds[1]]
-    sharp = rng.random() < 0.6
+    # a lens with an individual kappa distribution always draws: such configurations are never sharp
+    has_individual = any("los_distribution_individual" in kw for kw, _, _ in cfg["lenses"])
+    sharp = rng.random() < 0.6 and not has_individual
     pts = []
     for k in range(rng.randint(3, 6)):
         kind = rng.choice(["inside", "inside", "face", "far_outside", "just_outside"])
@@ -92,7 +112,14 @@ def history_oracle(cfg, rng, seed_base):
         if sharp:
             x = sharpen(names, x)
         pts.append(x)
-    hist = [rng.randrange(len(pts)) for _ in range(rng.randint(12, 40))]
+    # points that differ from another one in exactly ONE coordinate (stale per-parameter caches show up
+    # as history dependence only when everything else is bit-identical)
+    for _ in range(rng.randint(2, 4)):
+        base = list(pts[rng.randrange(len(pts))])
+        j = rng.randrange(len(base))
+        base[j] = rng.uniform(lo[j], up[j])
+        pts.append(sharpen(names, base) if sharp else base)
+    hist = [rng.randrange(len(pts)) for _ in range(rng.randint(16, 48))]
     first = {}
     values = []
     for step, pi in enumerate(hist):
@@ -154,6 +181,11 @@ def lens_dict_oracle(rng):
     lc.finish_scaling(rng, cfg, data, lt)
     if lt in lc.KIN_TYPES:
         h["kwargs_kin"]["sigma_v_sys_error"] = 0.05
+    if rng.random() < 0.4:
+        for k in ("global_los_distribution", "los_distributions"):
+            cfg.pop(k, None)
+        h["kwargs_los"] = None
+        cfg.update(individual_los(rng))
     lens = lc.make_lens(lt, cfg, data)
     cosmo = lc.FakeCosmo()
     snap = snapshot(h)
@@ -165,11 +197,13 @@ def lens_dict_oracle(rng):
     b = float(np.squeeze(lens.lens_log_likelihood(cosmo, **h)))
     if a != b and not (math.isnan(a) and math.isnan(b)):
         fails.append("lens_log_likelihood not reproducible from the seed: %r vs %r (%s)" % (a, b, lt))
-    lens2 = pickle.loads(pickle.dumps(lens))
-    np.random.seed(1)
-    c = float(np.squeeze(lens2.lens_log_likelihood(cosmo, **h)))
-    if a != c and not (math.isnan(a) and math.isnan(c)):
-        fails.append("pickled lens likelihood returns %r, original %r (%s)" % (c, a, lt))
+    for how, lens2 in (("pickled", pickle.loads(pickle.dumps(lens))), ("deep-copied", copy.deepcopy(lens))):
+        for rep in range(2):     # the copy must follow the global seed, repeatedly
+            np.random.seed(1)
+            c = float(np.squeeze(lens2.lens_log_likelihood(cosmo, **h)))
+            if a != c and not (math.isnan(a) and math.isnan(c)):
+                fails.append("%s lens likelihood returns %r, original %r (%s)" % (how, c, a, lt))
+                break
     return fails
 
 
